@@ -68,10 +68,20 @@ def infra(msg, out=""):
 
 # ---------------------------------------------------------------- build steps
 
+# scratch worktrees of /repo can be checked by setting VERIF_REPO (or a .verif_repo file in a scratch copy of /verif)
+REPO = os.environ.get("VERIF_REPO") or (open(os.path.join(ROOT, ".verif_repo")).read().strip()
+                                        if os.path.exists(os.path.join(ROOT, ".verif_repo")) else "/repo")
+
+
 def build_harness():
+    """go build -tags verif against the working tree of REPO (replace directive in a generated modfile)"""
     hdir = os.path.join(ROOT, "harness")
-    subprocess.run(["cp", "/repo/go.sum", os.path.join(hdir, "go.sum")], check=False)
-    rc, out = run(["go", "build", "-tags", "verif", "-o", P2H, "."], cwd=hdir, env=GOENV, timeout=900)
+    mod = open(os.path.join(hdir, "go.mod")).read().replace("=> /repo", "=> " + REPO)
+    modfile = os.path.join(BUILD, "harness.mod")
+    os.makedirs(BUILD, exist_ok=True)
+    open(modfile, "w").write(mod)
+    subprocess.run(["cp", os.path.join(REPO, "go.sum"), os.path.join(BUILD, "harness.sum")], check=False)
+    rc, out = run(["go", "build", "-tags", "verif", "-modfile", modfile, "-o", P2H, "."], cwd=hdir, env=GOENV, timeout=900)
     return rc, out
 
 
